@@ -264,7 +264,7 @@ PROPS = {
     "C10": dict(
         modules=["actor_lifecycle"],
         contracts=[f"{ACTM}:Actor._run_loop", f"{ACTM}:Actor.start", f"{BGSM}:BackgroundService.cancel",
-                   f"{BGSM}:BackgroundService.stop"],
+                   f"{BGSM}:BackgroundService.stop", "frequenz.sdk.actor._run_utils:run"],
         lemmas=[],
         bounded=[],
         level="proof",
@@ -272,11 +272,15 @@ PROPS = {
                     "a scripted collaborator that may return, raise Exception, be cancelled or raise another BaseException at "
                     "each invocation; exits re-raise without another invocation exactly as documented. start(): idempotent. "
                     "cancel(): every task asked to cancel. stop(): every task spawned before the call is finished on return - "
-                    "with interference at awaits (a task may be added while stop() waits): that case is a known finding.",
+                    "with interference at awaits (a task may be added while stop() waits): awaited too when the first batch ends "
+                    "cleanly, otherwise a known finding. run(*actors): starts exactly the actors that are not running and returns "
+                    "only when every waiter finished, whatever the order and outcome.",
         assumptions=[EXTRACTION,
                      "asyncio task model (create_task / wait / cancel / result) assumed; interference: at most one task added "
                      "while stop() awaits; up to two tasks in a service initially",
-                     "not under contract: run(*actors), wait() on its own, cancel_and_await, run_forever; 'never runs twice "
+                     "run(*actors) under contract for two actors (structural bound) with asyncio.wait(FIRST_COMPLETED) assumed to "
+                     "return a non-empty set of finished tasks; not under contract: wait() on its own (it is inlined into "
+                     "stop()), cancel_and_await, run_forever; 'never runs twice "
                      "concurrently' rests on start()'s idempotence plus _run_loop awaiting each invocation before the next"],
     ),
     "C19": dict(
